@@ -4,5 +4,5 @@ From Coq Require Import ZArith NArith List String.
 From RC Require Import lib.PyStr lib.Name model.BzlLockC19.
 Extraction Language OCaml.
 Extraction "../build/ocaml/C19/model.ml" N.succ Z.succ Pos.succ Nat.add
-  parse_lockfile parse_constraint sanitize norm pep508_name urljoin_rel
-  write_bazel lock_view wf_view fl_guard splitlines.
+  parse_lockfile parse_constraint sanitize norm pep508_name
+  write_bazel lock_view wf_view splitlines.
